@@ -77,7 +77,7 @@ CANDIDATES = {
     M.Number: [D('7'), D('0.10'), D('0'), D('123456789012.123456789012345678')],
     M.Bool: [True, False],
     M.InlineComment: ['note', '', '; x ;', STR_SYM],
-    M.BlockComment: ['bc', 'two\nlines', 'a\n\nb', ';x', STR_SYM],
+    M.BlockComment: ['bc', 'two\nlines', 'a\n\nb', ';x', 'a\n  \nb', 'a\n\t\nb', ' ', STR_SYM],      # lines made of blanks only
     M.Tag: ['new-tag'],
     M.Link: ['new-link'],
     M.MetaKey: ['newkey'],
@@ -200,6 +200,7 @@ def make_generic(scaf_name, twin=False):
                     continue
                 check(after[k] == before[k], 'assigning', type(m).__name__ + '.' + name, 'changed sibling property', k, R(before[k]), '->', R(after[k]))
             docenv.tree_invariant(f, what='tree after %s.%s = ...' % (type(m).__name__, name))
+            docenv.tokens_consistent(f.token_store, what='after %s.%s = %r' % (type(m).__name__, name, v))
             text = text_of(f)
             try:
                 f2 = docenv.PARSER.parse(text, M.File)
